@@ -57,6 +57,12 @@ type vfStreamEnd struct {
 	addr    string
 	onWrite func(n int) // called (unlocked) before each Write is processed: fault/cancel injection
 	onRead  func(n int)
+	// afterRead / afterWrite are called (unlocked) when the operation with that ordinal has been carried out,
+	// before it returns to the caller
+	afterRead, afterWrite func(n int)
+	// eofWithData: the read that hands over the last bytes before the end of the stream reports
+	// io.EOF together with them (n > 0 and io.EOF in one call, as the io.Reader contract allows)
+	eofWithData bool
 }
 
 func vfNewStream() *vfStream {
@@ -85,6 +91,18 @@ func (e *vfStreamEnd) Read(p []byte) (int, error) {
 	if y := e.s.yield; y != nil && y() {
 		runtime.Gosched()
 	}
+	if e.afterRead != nil {
+		e.s.mu.Lock()
+		k := e.nReads
+		e.s.mu.Unlock()
+		n, err := e.readLocked(p)
+		e.afterRead(k)
+		return n, err
+	}
+	return e.readLocked(p)
+}
+
+func (e *vfStreamEnd) readLocked(p []byte) (int, error) {
 	s := e.s
 	s.mu.Lock()
 	defer s.mu.Unlock()
@@ -113,6 +131,9 @@ func (e *vfStreamEnd) Read(p []byte) (int, error) {
 		}
 		copy(p, e.in[:n])
 		e.in = e.in[n:]
+		if e.eofWithData && len(e.in) == 0 && e.inEOF {
+			return n, io.EOF
+		}
 		return n, nil
 	}
 	return 0, io.EOF
@@ -128,6 +149,18 @@ func (e *vfStreamEnd) Write(p []byte) (int, error) {
 	if y := e.s.yield; y != nil && y() {
 		runtime.Gosched()
 	}
+	if e.afterWrite != nil {
+		e.s.mu.Lock()
+		k := e.nWrites
+		e.s.mu.Unlock()
+		n, err := e.writeLocked(p)
+		e.afterWrite(k)
+		return n, err
+	}
+	return e.writeLocked(p)
+}
+
+func (e *vfStreamEnd) writeLocked(p []byte) (int, error) {
 	s := e.s
 	s.mu.Lock()
 	defer s.mu.Unlock()
